@@ -20,7 +20,9 @@ RULE = ("random controller projects (user tags of every kind, 0-3 programs with 
         "a fifth of the module names end in Map / Cxn / _Task / Program; a redundant second open() in a quarter of the scenarios, three whole-tag reads between uploads in half and a get_plc_info() between "
         "uploads in 40 % change nothing; every fourth project holds a TIMER-shaped predefined type (70 % in the bare-name template form on firmware >= 32), "
         "12 % of the UDTs end in unnamed pad members; 2 % of the member names are words the library uses as keys of its own dicts (type_class, data_type, internal_tags ...) or begin with "
-        "one underscore, 5 % of the tag names begin with one underscore; a single-program upload with cache=True leaves exactly that program's tags; after every upload tags_json equals tags minus the type classes) are uploaded through open() / get_tag_list(None | '*' | program) "
+        "one underscore, 5 % of the tag names begin with one underscore; a single-program upload with cache=True leaves exactly that program's tags; half of the scenarios have one request of an upload refused by the controller "
+        "(a later template fragment, a program's symbol page, a template's attributes): a library exception, or a success that passes the full comparison; 40 % of the "
+        "rack scenarios upload everything with cache=False through a second driver opened with init_tags=False, and a program added after the last upload by name; after every upload tags_json equals tags minus the type classes) are uploaded through open() / get_tag_list(None | '*' | program) "
         "under target-chosen symbol pagination {1,2,3,random,all} and template fragmentation {1..8,random,all}, firmware {16..32}; the "
         "uploaded tags / data_types / info are compared field by field with the project model, get_tag_info(tag | tag[i].member.member[j]...) "
         "must return the same definitions, every uploaded type class must decode "
@@ -264,6 +266,11 @@ class Enough(Exception):
     """the same non-termination has been witnessed several times (each witness costs a whole step budget): the verdict is in"""
 
 
+def pycomm3_errors():
+    import pycomm3
+    return pycomm3.PycommError
+
+
 def note_budget(res, st):
     if st == "budget":
         res.count("uploads-that-did-not-terminate")
@@ -321,7 +328,10 @@ def run(ctx):
                 res.violation("open-failed", f"LogixDriver.open() against a conforming controller ({sc.label}, pages {sc.dev.page_mode}, template fragments {sc.dev.tmpl_frag}) -> {sc.opened!r:.300}",
                               {"config": sc.label, "log": [v[:3] for v in sc.b.log.violations[:3]]})
                 stuck_ = sc.opened is not None and sc.opened[0] == "budget"
-                sc.close()
+                try:
+                    sc.close()
+                except ScenarioDead:   # (the bench of a call that blew its budget is dead: closing it raises)
+                    pass
                 if stuck_:
                     note_budget(res, "budget")
                 continue
@@ -430,6 +440,81 @@ def run(ctx):
                         res.violation("program-scope-cache", f"after get_tag_list({pn!r}) tags holds {len(sc.drv.tags)} entries, the program has {len(want)}; not of this program: {extra_[:4]!r}", {"config": sc.label})
                     st2, out2 = sc.b.call("get_tag_list", sc.drv.get_tag_list, "*" if ipt else None)
                     note_budget(res, st2)
+            if rng.random() < 0.5:
+                # a request of the upload is refused by the controller (a later fragment of a template read, a page of a program's
+                # symbol list, a template's attributes): the upload fails with a library exception - or, if it reports success, it has
+                # uploaded everything.  A refusal may not turn into a shorter list.
+                where_ = rng.choice(["template-fragment", "template-fragment", "program-page", "template-attributes"])
+                stt_ = rng.choice([0x02, 0x05, 0x0F, 0x08, 0x1F])
+                seen_ = {"n": 0}
+
+                def refuse(rq, where_=where_, stt_=stt_, seen_=seen_):
+                    cls_ = rq.logical("class")
+                    hit = (where_ == "template-fragment" and cls_ == 0x6C and rq.service == 0x4C) or \
+                          (where_ == "template-attributes" and cls_ == 0x6C and rq.service == 0x03) or \
+                          (where_ == "program-page" and rq.service == 0x55 and any(s_[0] != "logical" for s_ in rq.segs))
+                    if not hit or seen_.get("fired"):
+                        return None
+                    if where_ == "template-fragment":
+                        # a LATER fragment of some template (offset > 0) - early ones, late ones, the last one: wherever the definition
+                        # is cut, in the member records or in the name block, the upload may not pass for complete
+                        if int.from_bytes(bytes(rq.data[:4]), "little") == 0 or rng.random() < 0.6:
+                            return None
+                    seen_["n"] += 1
+                    seen_["fired"] = True
+                    return (stt_, (), b"")
+                sc.dev.tmpl_frag = rng.choice([5, 16, 24, 40, 64, "random", "random"])   # bytes per reply: a handful of fragments per template
+                sc.dev.force_status = refuse
+                st, out = sc.b.call("get_tag_list", sc.drv.get_tag_list, "*" if ipt else None)
+                sc.dev.force_status = None
+                sc.dev.finish_transfers()
+                sc.b.log.violations.clear()
+                note_budget(res, st)
+                res.ev()
+                fired_ = bool(seen_.get("fired"))
+                res.seen("refused-upload-request", where_, stt_, fired_, st)
+                if fired_:
+                    if st == "exc" and not isinstance(out, pycomm3_errors()):
+                        res.violation(f"refused-upload:foreign-exception:{type(out).__name__}", f"get_tag_list() with a {where_} request refused ({stt_:#x}) raised {out!r:.200}", {"config": sc.label})
+                    elif st == "ok":
+                        check_upload(res, sc, sc.drv, "*" if ipt else None, keyp=f"refused-{where_}-reported-as-success:")
+                # whatever happened: a fresh upload from the now willing controller is complete again
+                st, out = sc.b.call("get_tag_list", sc.drv.get_tag_list, "*" if ipt else None)
+                note_budget(res, st)
+                if st == "ok":
+                    check_upload(res, sc, sc.drv, "*" if ipt else None, keyp="after-refused-upload:")
+                else:
+                    res.ev()
+                    res.violation("get_tag_list-raises", f"get_tag_list() after an earlier refused upload raised {out!r:.200} ({sc.label})", {"config": sc.label})
+            if not sc.micro and rng.random() < 0.4:
+                # rarely used forms of get_tag_list: (a) a driver opened without uploading (init_tags=False) asks for the whole list
+                # without caching it; (b) a program that was added to the controller after this driver's last upload, asked for by name
+                import pycomm3
+                d2 = pycomm3.LogixDriver(sc.path, init_tags=False)
+                st, out = sc.b.call("open", d2.open)
+                if st == "ok" and out:
+                    st, out = sc.b.call("get_tag_list", d2.get_tag_list, "*" if ipt else None, False)
+                    note_budget(res, st)
+                    res.ev()
+                    res.count("uploads-without-cache-on-a-driver-that-never-uploaded")
+                    if st != "ok" or not isinstance(out, list):
+                        res.violation("get_tag_list-raises", f"get_tag_list({'*' if ipt else None!r}, cache=False) on a driver opened with init_tags=False -> {out!r:.200} ({sc.label})", {"config": sc.label})
+                    elif sorted(t_.get("tag_name") for t_ in out) != sorted(sc.drv.tags):
+                        res.violation("uncached-upload-differs", f"get_tag_list(cache=False) on a second driver returned {len(out)} tags, the first driver's verified list has {len(sc.drv.tags)}", {"config": sc.label})
+                    sc.b.call("close", d2.close)
+                pb_ = rpj._builder_for(sc.prj, rng)
+                if "LateProg_q" not in sc.prj.programs:
+                    pb_.tag("late_q", "DINT", program="LateProg_q")
+                    rt_ = rpj.Tag("Routine:MainRoutine", rpj.ATOM_TYPES["DINT"], (), instance_id=pb_.instance(), program="LateProg_q", kind="routine")
+                    sc.prj.programs["LateProg_q"]["symbols"].append(rt_)
+                    sc.prj.programs["LateProg_q"]["symbols"].sort(key=lambda x: x.instance_id)
+                    sc.prj.programs["LateProg_q"]["routines"].append("MainRoutine")
+                    st, out = sc.b.call("get_tag_list", sc.drv.get_tag_list, "LateProg_q", False)
+                    note_budget(res, st)
+                    res.ev()
+                    res.count("uploads-of-a-program-added-after-the-last-upload")
+                    if st != "ok" or not isinstance(out, list) or sorted(t_.get("tag_name") for t_ in out) != ["Program:LateProg_q.late_q"]:
+                        res.violation("late-program-upload", f"get_tag_list('LateProg_q', cache=False) for a program added after the last upload -> {out!r:.200} ({sc.label})", {"config": sc.label})
             sc.close()
         except ScenarioDead:
             continue
